@@ -43,7 +43,8 @@ ASSUMPTIONS = ["theorems are over the reals; binary64 rounding is compared under
                "Monte Carlo results are compared with the model GIVEN the sample set the library "
                "retrieves (d.mc.samples()) and numpy.histogram of it (trusted, edges in order: checked "
                "on every request as the hypothesis WF of C14_inv_step); histories in which a sample "
-               "set has fewer than 2 elements are skipped and counted"]
+               "set has fewer than 2 elements, or numpy.histogram cannot make 100 bins of it (samples "
+               "equal up to an ulp), are skipped and counted"]
 TRUSTED = ["modelled not verified: numpy broadcasting in _get_error_array_helper, numpy.sqrt, "
            "numpy.histogram / numpy.mean / numpy.std on the Monte Carlo sample set"]
 LEVEL_TEXT = ("Lean 4 theorems about the creation/mutation state machine Model/Uncert.lean "
@@ -571,9 +572,15 @@ def observe(q, c):
             if s2 == "ok":
                 rec["mc"] = {"samples": [bits(float(x)) for x in smp]}
                 if len(smp) >= 2 and np.isfinite(smp).all():
-                    cnt, edg = np.histogram(smp, bins=100)
-                    rec["mc"]["counts"] = [int(x) for x in cnt]
-                    rec["mc"]["edges"] = [bits(float(x)) for x in edg]
+                    if k == "mcmode":
+                        try:
+                            cnt, edg = np.histogram(smp, bins=100)
+                            rec["mc"]["counts"] = [int(x) for x in cnt]
+                            rec["mc"]["edges"] = [bits(float(x)) for x in edg]
+                        except ValueError:
+                            # numpy cannot make 100 finite bins (samples equal up to an ulp):
+                            # the mode strategy is undefined there, outside the model
+                            rec["mc"]["degenerate"] = True
                 else:
                     rec["mc"]["degenerate"] = True
         rec["heap"] = read_heap(objs)
